@@ -47,7 +47,6 @@ template <class T> static void run_T(Choice &c, Ctx &cx)
     apply_opts(o, e.so); apply_ilu(io, e.so); e.so.IterRefine = NOREFINE;
     if (o.colperm == MY_PERMC) e.perm_c = o.my_perm_c;
     e.ilu = true;
-    if (cx.is_known("F-ILU") && ilu_probe_breakdown(e)) { cx.exclude("F-ILU"); cx.label("F-ILU:perm-incomplete"); vf_purge(); return; }
     e.bind();
     bool aborted = e.call();
     if (aborted) {
@@ -63,7 +62,6 @@ template <class T> static void run_T(Choice &c, Ctx &cx)
     if (!(eq == 'N' || eq == 'R' || eq == 'C' || eq == 'B')) { bail(); VF_FAIL(cx, "equed", "equed='%c'", eq); }
     bool rowequ = e.rowequ(), colequ = e.colequ(); LD uu = Consts<T>::u();
     if (!is_perm(e.perm_r.data(), n) || !is_perm(e.perm_c.data(), n)) {
-        if (cx.is_known("F-ILU")) { cx.exclude("F-ILU"); cx.label("F-ILU:perm-incomplete"); bail(); return; }
         bail(); VF_FAIL(cx, "perm", "permutations returned by gsisx are not bijections: info=%lld perm_r=%s perm_c=%s", info, vec_str(e.perm_r).c_str(), vec_str(e.perm_c).c_str());
     }
     // A on exit = the documented scaling of the input
